@@ -28,13 +28,14 @@ THEOREM_FILE = "Properties/C06.v"
 COQCHK = ["Properties.C06"]
 RULE = ("values: tree-shaped nests of dict/list/tuple/set/frozenset over None/bool/int/half-integer float/str/ASCII bytes, depth <= 3-4, "
         "width <= 4, a third of them with ==-aliasing atoms (1, 1.0, True ...); a case = (value or chain of values, option record); "
-        "non-trivial = the value contains at least one container; distinct = distinct (canonical value, options, check kind)")
+        "non-trivial = the value contains at least one container; distinct = distinct (canonical value, options, check kind); plus values in which "
+        "one object occurs at several positions (templates + values.share), one table outliving 50 runs over temporaries, in-place edits between runs")
 TRUSTED = [
     "no hypothesis on the hasher is used by the C06 theorems (H is an arbitrary function); the refutation witnesses are evaluated with the concrete hex hasher",
     "bytes are modelled for ASCII content only (utf-8 decoding = identity); floats are half-integers with positional repr",
     "cyclic / shared mutable containers, custom objects, numpy, Decimal, datetime, exclude/include paths, custom operators are outside the model",
 ]
-ASSUMPTIONS = ["tree-shaped inputs: no mutable object occurs at two positions", "no nan/inf/-0.0"]
+ASSUMPTIONS = ["acyclic inputs; a value in which one object occurs at several positions is compared with the model of its unfolded tree", "no nan/inf/-0.0"]
 
 HEADER = ("From DD Require Import Base.PyStr Base.Value Hash.HashModel Hash.HashShow.\n"
           "Local Open Scope Z_scope.")
@@ -222,12 +223,103 @@ SAFE_NS = {"frozenset": frozenset, "set": set, "True": True, "False": False, "No
 
 
 def from_repr(s):
-    return eval(s, {"__builtins__": {}}, dict(SAFE_NS))
+    g = {"__builtins__": {}}
+    g.update(SAFE_NS)          # in the globals: lambdas (used to rebuild shared sub-objects) resolve names there
+    return eval(s, g)
 
 
 # ---------------------------------------------------------------------------
 # direct oracle
 # ---------------------------------------------------------------------------
+
+_LEAF = (int, str, bytes, bool, type(None))   # CPython restores the identity of these by itself (small ints, None, interned str)
+
+
+def _children(x):
+    if isinstance(x, (list, tuple, set, frozenset)):
+        return list(x)
+    if isinstance(x, dict):
+        out = []
+        for k, y in x.items():
+            out.append(k)
+            out.append(y)
+        return out
+    return []
+
+
+def expr_shared(v):
+    """A Python expression that rebuilds v INCLUDING its sharing: every object (container or float) that occurs at
+    more than one position by identity is bound once by a lambda.  For tree-shaped v this is repr(v)."""
+    count, order = {}, []
+
+    def walk(x):
+        if isinstance(x, _LEAF):
+            return
+        count[id(x)] = count.get(id(x), 0) + 1
+        if count[id(x)] > 1:
+            return
+        for y in _children(x):
+            walk(y)
+        order.append(x)
+    walk(v)
+    shared = [x for x in order if count[id(x)] > 1]
+    names = {id(x): "s%d" % k for k, x in enumerate(shared)}
+
+    def emit(x, top=False):
+        if not top and id(x) in names:
+            return names[id(x)]
+        if isinstance(x, list):
+            return "[" + ", ".join(emit(y) for y in x) + "]"
+        if isinstance(x, tuple):
+            return "(" + "".join(emit(y) + ", " for y in x) + ")"
+        if isinstance(x, dict):
+            return "{" + ", ".join("%s: %s" % (emit(k), emit(y)) for k, y in x.items()) + "}"
+        if isinstance(x, frozenset):
+            return "frozenset([" + ", ".join(emit(y) for y in x) + "])"
+        if isinstance(x, set):
+            return "set([" + ", ".join(emit(y) for y in x) + "])"
+        return repr(x)
+    body = emit(v, top=True)
+    for x in reversed(shared):
+        body = "(lambda %s: %s)(%s)" % (names[id(x)], body, emit(x, top=True))
+    return body
+
+
+def has_sharing(v):
+    seen = set()
+
+    def walk(x):
+        if isinstance(x, _LEAF) or isinstance(x, float):
+            return False
+        if id(x) in seen:
+            return True
+        seen.add(id(x))
+        return any(walk(y) for y in _children(x))
+    return walk(v)
+
+
+def rebuild_keep(v, rng, memo=None):
+    """a copy with every dict's insertion order permuted that PRESERVES the sharing structure of v"""
+    memo = {} if memo is None else memo
+    if isinstance(v, _LEAF) or isinstance(v, float):
+        return v
+    if id(v) in memo:
+        return memo[id(v)]
+    if isinstance(v, list):
+        r = [rebuild_keep(x, rng, memo) for x in v]
+    elif isinstance(v, tuple):
+        r = tuple(rebuild_keep(x, rng, memo) for x in v)
+    elif isinstance(v, dict):
+        items = [(k, rebuild_keep(x, rng, memo)) for k, x in v.items()]
+        items.reverse()
+        if rng.random() < 0.5:
+            rng.shuffle(items)
+        r = dict(items)
+    else:
+        r = type(v)(v)
+    memo[id(v)] = r
+    return r
+
 
 def set_orders(v, out=None):
     """iteration orders of all sets inside v, as a sorted list (position-independent)"""
@@ -245,9 +337,9 @@ def set_orders(v, out=None):
 
 
 def _case(kind, o, v, w=None, extra=None):
-    c = {"kind": kind, "opts": list(o), "value": repr(v)}
+    c = {"kind": kind, "opts": list(o), "value": expr_shared(v)}
     if w is not None:
-        c["other"] = repr(w)
+        c["other"] = expr_shared(w)
         c["set_iteration_orders_differ"] = set_orders(v) != set_orders(w)
     if extra:
         c.update(extra)
@@ -290,6 +382,186 @@ def oracle_shared(ctx, v, w, o, hasher=None):
     ctx.count("oracle:shared_table")
     if h1 != h0 or h2 != h0:
         ctx.fail(_case("shared_table", o, v, w), "hash of %r differs between a fresh table and the table left by hashing %r" % (v, w))
+
+
+# ---- repeated sub-objects: one object at several positions ------------------
+
+SHARE_TEMPLATES = [
+    "(lambda s: {'a': s, 'b': s, 'n': 0})(%s)",
+    "(lambda s: {'first': s, 'later': {'deep': [s, 'z']}})(%s)",
+    "(lambda s: [{'k1': s, 'k2': [s]}, 'tail'])(%s)",
+    "(lambda s: [s, {'k': s}])(%s)",
+    "(lambda s: [s, s, (s,)])(%s)",
+    "(lambda s: {'a': {'b': s}, 'c': {'d': s}})(%s)",
+    "(lambda s: {'a': s, 'b': [[s]]})(%s)",
+    "(lambda s: {'a': 1, 'b': s, 'c': {'d': s, 'e': [s, 2]}})(%s)",
+    "(lambda s: {'x': (s, 1), 'y': s, 'z': [s]})(%s)",
+]
+SHARED_OBJS = ["[1, 2]", "{'p': 'q'}", "(3, 'x')", "set([4, 5])", "frozenset([6])", "[]", "[[1], {'k': [2]}]", "2.5",
+               "(1, [2])", "{'p': [1, {'q': 2}]}", "{}"]
+
+
+def sharing_values(rng, n_random):
+    out = [from_repr(t % x) for t in SHARE_TEMPLATES for x in SHARED_OBJS]
+    tries = 0
+    while n_random > 0 and tries < 20 * n_random:
+        tries += 1
+        v = values.gen_value(rng, 3, 4, alias=False, strings=["a", "b", "k1", "x y"], kinds="LDLDT")
+        w, ok = values.share(rng, v)
+        if ok and has_sharing(w):
+            out.append(w)
+            n_random -= 1
+    return out
+
+
+def oracle_sharing(ctx, vals, rng):
+    """a value in which one object occurs at several positions hashes like the unshared tree with the same content,
+    whatever the dict insertion orders; the model (which sees the unfolded tree) gives the same string"""
+    cases = []
+    for v in vals:
+        ctx.count("sharing:values")
+        tree = rebuild(v, rng)                     # fresh containers everywhere: no sharing
+        for o in MODES3:
+            h0 = impl_hash(v, o)[0]
+            h1 = impl_hash(tree, o)[0]
+            w = rebuild_keep(v, rng)
+            h2 = impl_hash(w, o)[0]
+            ctx.seen(("sharing", o, expr_shared(v)), nontrivial=True)
+            if h1 != h0:
+                ctx.fail(_case("unshared_copy", o, v, tree),
+                         "a value with a repeated sub-object hashes differently from the equal value without sharing: %s" % expr_shared(v))
+            if h2 != h0:
+                ctx.fail(_case("shared_dict_order", o, v, w),
+                         "dict insertion order changes the hash of a value with a repeated sub-object: %s" % expr_shared(v))
+            cases.append(("sx_str (deephash hexhash %s %s)" % (coq_opts(o), values.to_coq(v)), impl_hash(v, o, hexhasher)[0],
+                          {"value": expr_shared(v), "opts": list(o), "check": "shared value == model of the unfolded tree"}))
+    ctx.coq_cases("hash_sharing", HEADER, cases, shard=80, label="exact_root_repeated_subobjects")
+
+
+# ---- one table outliving many runs ---------------------------------------------
+
+TMP_STRS = ["a", "b", "c", "k1", "k2", "p", "q", "x y"]
+
+
+def gen_tmp(r, depth, sets):
+    """alias-free by construction (ints and strs only), so no K2 noise; fresh containers"""
+    if depth <= 0 or r.random() < 0.2:
+        return r.randint(0, 30) if r.random() < 0.6 else r.choice(TMP_STRS)
+    k = r.choice("LLDDTS" if sets else "LLDDT")
+    n = r.randint(0, 3)
+    if k == "L":
+        return [gen_tmp(r, depth - 1, sets) for _ in range(n)]
+    if k == "T":
+        return tuple(gen_tmp(r, depth - 1, sets) for _ in range(n))
+    if k == "D":
+        return {kk: gen_tmp(r, depth - 1, sets) for kk in r.sample(TMP_STRS + [1, 2, 3], n)}
+    return set(r.sample(TMP_STRS + [1, 2, 3, 4], n))
+
+
+def long_lived_stream(seed, o, n, stop_at=None):
+    """one table T outlives n runs over freshly built temporary values; yields (index, value expr, shared hash, fresh hash)"""
+    from deepdiff import DeepHash
+    r = random.Random(seed)
+    T = {}
+    out = []
+    for i in range(n):
+        v = gen_tmp(r, 3, o[1])
+        if not has_container(v):
+            v = [v, [v]]
+        k = kw(o)
+        h1 = DeepHash(v, hashes=T, **k)[v]
+        h0 = DeepHash(v, **k)[v]
+        out.append((i, expr_shared(v) if h1 != h0 else None, h1, h0))
+        del v
+        if stop_at is not None and i >= stop_at:
+            break
+    return out
+
+
+def oracle_long_lived(ctx, n_tables, n_runs):
+    for t in range(n_tables):
+        seed = ctx.rng.randrange(1 << 30)
+        o = MODES3[t % 3]
+        for (i, expr, h1, h0) in long_lived_stream(seed, o, n_runs):
+            ctx.seen(("long_lived", seed, i), nontrivial=True)
+            ctx.count("oracle:long_lived_table_runs")
+            if h1 != h0:
+                ctx.fail({"kind": "long_lived_table", "opts": list(o), "stream_seed": seed, "index": i, "runs": n_runs, "value": expr},
+                         "run %d on a table that outlived earlier (dead) values: hash differs from the fresh-table hash for %s" % (i, expr))
+                break
+
+
+def _mutable_positions(v):
+    return [p for p in values.positions(v) if isinstance(values.get_at(v, p), (list, dict, set))]
+
+
+def apply_edit(v, edit):
+    path, op, arg = edit
+    c = values.get_at(v, tuple(path))
+    if op == "append":
+        c.append(arg)
+    elif op == "pop":
+        c.pop()
+    elif op == "setitem":
+        c[arg[0]] = arg[1]
+    elif op == "delitem":
+        del c[arg]
+    elif op == "add":
+        c.add(arg)
+    elif op == "clear":
+        c.clear()
+
+
+def gen_inplace_edit(r, v):
+    pos = _mutable_positions(v)
+    if not pos:
+        return None
+    p = r.choice(pos)
+    c = values.get_at(v, p)
+    if isinstance(c, list):
+        op = r.choice(["append", "append", "pop", "clear"]) if c else "append"
+        return (list(p), op, r.choice([99, "new", [7]]) if op == "append" else None)
+    if isinstance(c, dict):
+        if c and r.random() < 0.3:
+            return (list(p), "delitem", r.choice(list(c)))
+        return (list(p), "setitem", ["extra%d" % r.randint(0, 3), r.choice([None, 5, "v", [1]])])
+    return (list(p), "add", r.choice([77, "new"]))
+
+
+def inplace_check(ctx, v, edit, o):
+    """hash into T, edit a contained list/dict/set IN PLACE, hash again with hashes=T: must equal the fresh-table hash"""
+    from deepdiff import DeepHash
+    k = kw(o)
+    before = expr_shared(v)
+    T = {}
+    first = DeepHash(v, hashes=T, **k)[v]
+    apply_edit(v, edit)
+    again = DeepHash(v, hashes=T, **k)[v]
+    fresh = DeepHash(v, **k)[v]
+    ctx.seen(("inplace", o, before, repr(edit)), nontrivial=True)
+    ctx.count("oracle:inplace_edit_rehash")
+    if again != fresh:
+        ctx.fail({"kind": "inplace_edit", "opts": list(o), "value": before, "edit": list(edit), "after": expr_shared(v)},
+                 "after an in-place edit %r the shared table returns a stale hash for %s" % (edit, expr_shared(v)))
+
+
+def oracle_inplace(ctx, n):
+    r = random.Random(ctx.rng.randrange(1 << 30))
+    fixed = [({'name': 'n', 'rows': [[1, 2], ['a', 'b']], 'tags': ('t', 'u')}, (['rows', 1], "append", 'c')),
+             ({'name': 'n', 'rows': [[1, 2], ['a', 'b']]}, ([], "setitem", ['extra', None])),
+             ([1, ({'k': [2]}, 3)], ([1, 0, 'k'], "append", 9)),
+             ([{1, 2}, 'x'], ([0], "add", 3))]
+    for v, e in fixed:
+        for o in MODES3[:2]:
+            inplace_check(ctx, copy.deepcopy(v), e, o)
+    for i in range(n):
+        o = MODES3[i % 3]
+        v = gen_tmp(r, 3, o[1])
+        if not has_container(v):
+            continue
+        e = gen_inplace_edit(r, v)
+        if e is not None:
+            inplace_check(ctx, v, e, o)
 
 
 # ---- PYTHONHASHSEED ---------------------------------------------------------
@@ -406,14 +678,14 @@ def _vals_of_case(case):
 
 def _k2(case):
     """memo aliasing: the failing check involves the table (always) and two atoms that are == but of different type co-occur"""
-    if case.get("kind") not in ("dict_order", "set_order", "seq_order", "shared_table", "hash_seed", "copy"):
+    if case.get("kind") not in ("dict_order", "set_order", "seq_order", "shared_table", "hash_seed", "copy", "unshared_copy", "shared_dict_order"):
         return False
     return memo_alias(*_vals_of_case(case))
 
 
 def _k3(case):
     """ordered mode leaks set iteration order: ignore_iterable_order=False and a set/frozenset with >= 2 members"""
-    if case.get("kind") not in ("set_order", "hash_seed", "copy", "dict_order", "shared_table"):
+    if case.get("kind") not in ("set_order", "hash_seed", "copy", "dict_order", "shared_table", "unshared_copy"):
         return False
     if case["opts"][1] or not case.get("set_iteration_orders_differ"):
         return False
@@ -467,9 +739,15 @@ def corr_single(ctx, vals, modes, name, label):
                 ctx.count("skipped:empty_key_with_ignore_string_type_changes")
                 continue
             root, dh = impl_hash(v, o, hexhasher)
+            if has_sharing(v):
+                # one object at several positions: the id-keyed table entries are per object, the model's per position;
+                # the root hash must still be that of the unfolded tree
+                cases.append(("sx_str (deephash hexhash %s %s)" % (coq_opts(o), values.to_coq(v)), root,
+                              {"value": expr_shared(v), "opts": list(o), "impl_root": unhex(root)[:300], "check": "root only (shared sub-object)"}))
+                continue
             exp = [root, table_of(dh.hashes, [v])]
             cases.append(("run_one %s %s" % (coq_opts(o), values.to_coq(v)), exp,
-                          {"value": repr(v), "opts": list(o), "impl_root": unhex(root)[:300]}))
+                          {"value": expr_shared(v), "opts": list(o), "impl_root": unhex(root)[:300]}))
     return ctx.coq_cases(name, HEADER, cases, shard=60, label=label)
 
 
@@ -609,7 +887,7 @@ FIXED = [
 def run(ctx):
     rng = ctx.rng
     sys.setrecursionlimit(10000)
-    n1 = 260 if ctx.thorough else 70
+    n1 = 260 if ctx.thorough else 50
     vals = FIXED + make_values(rng, n1, 3) + make_values(rng, n1 // 4, 4)
     vals = [v for v in vals if in_model_range(v)]
     for v in vals:
@@ -629,7 +907,7 @@ def run(ctx):
     chains += [[{'a': 0.0}, {0: 0.5, 'a': 0.0}], [[1.0], [1, True]], [(1,), (1.0,), [(True,)]], [1, 1.0, True, [1.0]]]
     corr_chain(ctx, chains, MODES3, "hash_chain", "exact_strings_shared_table")
     # --- other options (smaller sample)
-    small = vals[:len(FIXED)] + rng.sample(vals[len(FIXED):], min(len(vals) - len(FIXED), 60 if ctx.thorough else 20))
+    small = vals[:len(FIXED)] + rng.sample(vals[len(FIXED):], min(len(vals) - len(FIXED), 60 if ctx.thorough else 10))
     small = [v for v in small if in_model_range(v, small_ints=True)]
     corr_single(ctx, small, OPTION_SAMPLES, "hash_opts", "exact_strings_other_options")
     # --- SHA-256 equality pattern over a pool
@@ -645,7 +923,7 @@ def run(ctx):
     pool = [v for v in pool if in_model_range(v)][:300]
     corr_pattern(ctx, pool, MODES3, "hash_pattern")
     # --- direct oracle on the implementation (default SHA-256 hasher)
-    ovals = vals + (make_values(rng, 900, 4) if ctx.thorough else make_values(rng, 150, 3))
+    ovals = vals + (make_values(rng, 900, 4) if ctx.thorough else make_values(rng, 110, 3))
     for v in ovals:
         for o in MODES3:
             oracle_value(ctx, v, o, rng)
@@ -657,6 +935,15 @@ def run(ctx):
     for v in ovals[: len(ovals) // 2]:
         w = rebuild(v, rng, dict_order=True, set_order=True)
         oracle_shared(ctx, w, v, rng.choice(MODES3))
+    # --- repeated sub-objects (one object at several positions), long-lived tables, in-place edits
+    sv = sharing_values(rng, 120 if ctx.thorough else 20)
+    if not ctx.thorough:       # quick: every template once (cycling through the shared objects) + a seeded sample + the random ones
+        nt = len(SHARE_TEMPLATES) * len(SHARED_OBJS)
+        keep = set(i * len(SHARED_OBJS) + (i % len(SHARED_OBJS)) for i in range(len(SHARE_TEMPLATES))) | set(rng.sample(range(nt), 30))
+        sv = [v for i, v in enumerate(sv) if i >= nt or i in keep]
+    oracle_sharing(ctx, sv, rng)
+    oracle_long_lived(ctx, 30 if ctx.thorough else 6, 50)
+    oracle_inplace(ctx, 600 if ctx.thorough else 120)
     # --- PYTHONHASHSEED
     strs = ["a", "b", "c", "ab", "k1", "k2", "x y", "", "é", "NONE", "zz", "q"]
     svals = []
@@ -676,6 +963,20 @@ def replay(ctx, data):
     v = from_repr(case["value"])
     kind = case.get("kind")
     rng = random.Random(0)
+    if kind == "long_lived_table":
+        o = tuple(case["opts"])
+        res = long_lived_stream(case["stream_seed"], o, case.get("runs", 50), stop_at=case["index"])
+        i, expr, h1, h0 = res[-1]
+        ctx.evaluations += len(res)
+        print("replay: long-lived table, stream_seed=%r run %d: shared-table hash %s fresh-table hash %s value=%s" % (case["stream_seed"], i, h1, h0, expr or case.get("value")))
+        bad = [x for x in res if x[2] != x[3]]
+        if bad:
+            ctx.fail(case, "run %d on a table that outlived earlier (dead) values: hash differs from the fresh-table hash" % bad[0][0])
+        return
+    if kind == "inplace_edit":
+        inplace_check(ctx, v, tuple(case["edit"]), o)
+        print("replay: inplace_edit value=%s edit=%r" % (case["value"], case["edit"]))
+        return
     if kind == "shared_table":
         w = from_repr(case["other"])
         oracle_shared(ctx, v, w, o)
